@@ -160,6 +160,15 @@ func handleOrderObserve(raw json.RawMessage) *Obs {
 		r0 := rs[hashOf(verifSeed, i)%uint64(len(rs))]
 		vals[i], srcs[i] = r0.v, r0.src
 	}
+	if dbg := os.Getenv("VERIF_C06_DEBUG"); dbg != "" {
+		for _, f := range strings.Split(dbg, ",") {
+			var k int
+			fmt.Sscan(f, &k)
+			if k >= 1 && k <= n {
+				fmt.Fprintf(os.Stderr, "UNIVERSE %d: %s   [%T]  spec %s\n", k, srcs[k-1], vals[k-1], avs[k-1].Render())
+			}
+		}
+	}
 	index := map[string]int{}
 	for i, a := range avs {
 		index[a.Canon()] = i + 1
@@ -213,6 +222,16 @@ func handleOrderObserve(raw json.RawMessage) *Obs {
 			mem = append(mem, m+1)
 		}
 		if !ok {
+			continue
+		}
+		// two members that sit at one index of a string / array / byte array (or one key of a dict) cannot
+		// live in one set (the recorded finding KF-superimposed, C01's business): such a subset is no sort input
+		var mavs []*AV
+		for _, m := range members {
+			mavs = append(mavs, avs[m])
+		}
+		if contains(SetOf(mavs...).Shape().Flags(), "superimposed") {
+			obs.Notes = append(obs.Notes, "subset-skipped-superimposed")
 			continue
 		}
 		record := func(what string, seq []int) {
